@@ -1195,6 +1195,9 @@ impl Ty {
                 },
             ) => found_ty.is_functionally_equivalent_to(expected_ty, false),
             (Ty::Slice { sub_ty: found_ty }, Ty::RawSlice) => !found_ty.might_be_weak(),
+            // the slice points to the memory of the array, so the items have to be what the
+            // slice says they are: either they still get their type from the slice
+            // (`.[1, 2, 3]`) or they already have it
             (
                 Ty::AnonArray {
                     sub_ty: found_ty, ..
@@ -1202,7 +1205,10 @@ impl Ty {
                 Ty::Slice {
                     sub_ty: expected_ty,
                 },
-            ) => found_ty.can_fit_into(expected_ty),
+            ) => {
+                found_ty.is_weak_replaceable_by(expected_ty)
+                    || found_ty.is_functionally_equivalent_to(expected_ty, false)
+            }
             (
                 Ty::ConcreteArray {
                     sub_ty: found_ty, ..
